@@ -85,6 +85,10 @@ func (m *Mutex) Unlock() {
 type RWMutex struct {
 	w bool
 	r int
+	// pw: writers that have called Lock and are waiting. Like sync.RWMutex, a waiting writer blocks NEW readers ("if any
+	// goroutine calls Lock while the lock is already held by one or more readers, concurrent calls to RLock will block
+	// until the writer has acquired (and released) the lock") - which is what makes a recursive read lock a deadlock.
+	pw int
 	// race mode: hw carries writer-unlock -> next lock of either kind, hr carries reader-unlock -> next writer lock
 	hw, hr rsync.Mutex
 }
@@ -98,7 +102,9 @@ func (m *RWMutex) Lock() {
 	if S.killed {
 		runtime.Goexit()
 	}
+	m.pw++
 	blockOp("RWMutex.Lock", func() bool { return !m.w && m.r == 0 })
+	m.pw--
 	m.w = true
 	hb(&m.hw)
 	hb(&m.hr)
@@ -125,7 +131,7 @@ func (m *RWMutex) RLock() {
 	if S.killed {
 		runtime.Goexit()
 	}
-	blockOp("RWMutex.RLock", func() bool { return !m.w })
+	blockOp("RWMutex.RLock", func() bool { return !m.w && m.pw == 0 })
 	m.r++
 	hb(&m.hw)
 }
